@@ -1,6 +1,6 @@
 SPECIFICATION TSpec
 CONSTANTS
-  Vars = {"x", "y", "z"}
+  Vars = {"x", "y", "z", "w"}
   MaxG = 2
   Strong = FALSE
   Ops = {"compose", "quotient", "merge"}
